@@ -40,7 +40,7 @@ from frappy.params import Parameter
 from frappy.protocol.messages import COMMANDREPLY, DESCRIPTIONREPLY, \
     DISABLEEVENTSREPLY, ENABLEEVENTSREPLY, ERRORPREFIX, EVENTREPLY, \
     HEARTBEATREPLY, IDENTREPLY, IDENTREQUEST, LOG_EVENT, LOGGING_REPLY, \
-    READREPLY, WRITEREPLY
+    READREPLY, REQUEST2REPLY, WRITEREPLY
 
 
 def make_update(modulename, pobj):
@@ -206,6 +206,9 @@ class Dispatcher:
             # special case for *IDN?
             if action == IDENTREQUEST:
                 action, specifier, data = '_ident', None, None
+            elif action not in REQUEST2REPLY:
+                # only SECoP requests are dispatched by name (e.g. '_ident' or 'request' are no requests)
+                raise ProtocolError(f'unhandled message: {repr(msg)}')
 
             self.log.debug('Looking for handle_%s', action)
             handler = getattr(self, f'handle_{action}', None)
